@@ -28,6 +28,9 @@ def http_scenarios(quick):
     bodies.append(("stream", 600000))       # larger than what net/http's server drains on its own after an early answer
     forced += [(si, len(bodies) - 1, "background", 0, "none", via) for si in (len(scripts) - 2, len(scripts) - 1) for via in ("roundtripper", "request")]
     # always: the adapter's default retry policy running out of retries (the caller gets the LAST response inside the ExceededError)
+    scripts.append([R(503, 2, mode="slow"), R(200)])
+    scripts.append([R(429, 1, mode="slow"), R(503, 3, mode="slow"), R(200, mode="slow")])
+    forced += [(si, 0, "background", pi, "none", via) for si in (len(scripts) - 2, len(scripts) - 1) for pi in (0, 7) for via in ("roundtripper", "request")]
     scripts.append([R(429, 0), R(503), R(500)])
     scripts.append([R(500), R(err="conn"), R(err="conn")])
     forced += [(si, bi, rc, len(pols) - 1, "none", via) for si in (4, len(scripts) - 2, len(scripts) - 1) for bi in (0, 3) for rc in ("background", "values") for via in ("roundtripper", "request")]
